@@ -108,14 +108,13 @@ def repo_root_for(q, workdir):
 def cc_args(q, root):
     a = []
     for f in q.cc_flags:
-        pass
-    if "harness/shim" in q.cc_flags:
-        a += ["-I", os.path.join(HARNESS, "shim")]
+        if f.startswith("harness/shim"):     # harness/shim (interrupt hooks) or harness/shim_hb (happens-before reporting): must precede the system <stdatomic.h>
+            a += ["-I", os.path.join(HARNESS, f[len("harness/"):])]
     a += ["-I", os.path.join(root, "include"), "-I", root, "-I", HARNESS, "-I", os.path.join(VERIF, "vt"),
          "-D__NO_CTYPE", "-D" + GUARD, "-DVT_ENTRY=" + q.entry]
     for k, v in q.defines.items():
         a.append("-D%s" % k if v is None else "-D%s=%s" % (k, v))
-    a += [f for f in q.cc_flags if f not in ("-I", "harness/shim")]
+    a += [f for f in q.cc_flags if f != "-I" and not f.startswith("harness/shim")]
     return a
 
 
